@@ -38,11 +38,13 @@ const (
 	actReadDL     action = "readdeadline"
 	actHoldClose  action = "holdclose"  // Close (x2) while the endpoint is inside an emission (holds the write lock)
 	actHoldPeerCN action = "holdreply"  // user Close while the reply to the peer's close_notify is being emitted
+	actPeerCloseWF action = "peerclosewf" // the peer closes while this endpoint's transport refuses writes (the close_notify reply cannot be sent)
+	actCloseWF     action = "closewf"     // the application closes while the transport refuses writes (close_notify cannot be sent)
 	actStallDL    action = "stalldeadline" // a Write stalled in a back-pressured transport is interrupted by the write deadline (set before or during the stall)
 	actStallClose action = "stallclose" // Close (x2) while an emission is stalled in a back-pressured transport (honours deadlines, never completes by itself)
 )
 
-var allActions = []action{actClose1, actClose2, actClose3, actPeerClose, actBothClose, actAlert0, actCtx, actReadDL, actHoldClose, actHoldPeerCN, actStallClose, actStallDL}
+var allActions = []action{actClose1, actClose2, actClose3, actPeerClose, actBothClose, actAlert0, actCtx, actReadDL, actHoldClose, actHoldPeerCN, actStallClose, actStallDL, actPeerCloseWF, actCloseWF}
 
 func closedClass(err error) bool {
 	if err == nil {
@@ -505,6 +507,58 @@ func c16Run(t *testing.T, p *world.PKI, v checks.Variant, clientSide bool, pos i
 					bad("%s emitted %d alert records (close_notify at most once)", e.Name, al)
 				}
 			}
+			finish(w, pr, n, x, y, bad)
+
+		case actPeerCloseWF, actCloseWF:
+			if !xs.Established || !ys.Established {
+				o.Skip = true
+				pr.CloseAll()
+				return
+			}
+			// X's transport starts failing every write (unreachable peer, ENOBUFS, a mux being torn down).
+			rd := startRead(w, x)
+			w.Settle()
+			x.PC.SetWriteErr(errors.New("injected transport write fault"))
+			var xc *world.Op
+			if act == actPeerCloseWF {
+				yc := startClose(w, y, 0)
+				_ = n.Pump(3*time.Second, func() bool { return rd.Done() && yc.Done() })
+				if !yc.Done() {
+					bad("peer Close did not return")
+				}
+				if !rd.Done() {
+					bad("Read not unblocked by the peer's close_notify although only the reply could not be sent")
+				} else if _, e := rd.Result(); !errors.Is(e, io.EOF) {
+					bad("Read returned %v after the peer's close_notify (want io.EOF: a received close_notify closes the connection whether or not the reply can be sent)", e)
+				}
+				// the connection is closed: Write fails with a closed error, a second Read does not block
+				wr := startWrite(w, x, "after-peer-close")
+				rd2 := startRead(w, x)
+				w.Settle()
+				if !wr.Done() {
+					bad("Write after the peer's close_notify did not return")
+				} else if _, e := wr.Result(); !closedClass(e) {
+					bad("Write after the peer's close_notify returned %v (want a closed error)", e)
+				}
+				if !rd2.Done() {
+					bad("a second Read after the peer's close_notify blocks: the connection was not closed")
+				}
+				xc = startClose(w, x, 0)
+			} else {
+				xc = startClose(w, x, 0)
+				w.Settle()
+				if !rd.Done() {
+					bad("pending Read not released by Close when the transport refuses writes")
+				} else if _, e := rd.Result(); !closedClass(e) {
+					bad("pending Read returned %v after Close (want a closed / EOF error)", e)
+				}
+			}
+			w.Settle()
+			n.Flush()
+			if !xc.Done() {
+				bad("Close did not return when the transport refuses writes")
+			}
+			x.PC.SetWriteErr(nil)
 			finish(w, pr, n, x, y, bad)
 
 		case actHoldPeerCN:
